@@ -2,6 +2,7 @@
 From Coq Require Import List ZArith NArith Bool.
 Import ListNotations.
 From GS Require Import Num EventLoop Kernel.
+From GS Require Import NumZ Sim ExampleKit.
 From GS.Proofs Require Import Aux EventLoopP KernelP KernelP2 DriveP.
 
 (** Every executed event lies within the bounds: its timestamp does not exceed the duration and
@@ -88,6 +89,15 @@ Theorem C04_event_at_duration_is_eligible :
 Proof.
   intros F A OL c d Hd. unfold dur_ok. rewrite Hd. rewrite (ltb_leb A OL), (leb_refl A OL). reflexivity.
 Qed.
+
+(** Non-vacuity: timers at 1, 2, 3 and a duration of 2 -- exactly the first two fire, finish sees time 2. *)
+Definition ex4 (n : nat) (ps : unit) (now : Z) (c : cb Z) : unit * list (action Z) :=
+  match c with CbInit => (tt, [ASetTimer 0 1%Z; ASetTimer 0 2%Z; ASetTimer 0 3%Z]) | _ => (tt, []) end.
+Example C04_example :
+  runx (cfgx [HTimer] 1 [(0, 0, 0)%Z] 10%Z 0%Z 0%Z 1%Z 1%Z [] []) ex4 (Some 2%Z) None 20 =
+  ([TCb 0 0%Z CbInit; TAct 0 (ASetTimer 0 1%Z) Ok; TAct 0 (ASetTimer 0 2%Z) Ok; TAct 0 (ASetTimer 0 3%Z) Ok;
+    TCb 0 1%Z (CbTimer 0); TCb 0 2%Z (CbTimer 0); TCb 0 2%Z CbFinish], true, 0, [(0, 0, 0)%Z]).
+Proof. vm_compute. reflexivity. Qed.
 
 Print Assumptions C04_executed_within_bounds.
 Print Assumptions C04_any_driving_within_bounds.
